@@ -119,6 +119,18 @@ def check_validated(res, case, sk, cfg, log, where):
                     res.violate("C11:validator-ignored", "a validation returned although x_lt_y fails", dict(case, at=where, path=path))
 
 
+def plain_tree(t):
+    if t is None or type(t) in (bool, int, str):
+        return True
+    if type(t) is float:
+        return t == t and t not in (float("inf"), float("-inf"))
+    if type(t) is list:
+        return all(plain_tree(x) for x in t)
+    if type(t) is dict:
+        return all(type(k) is str and k.isidentifier() and plain_tree(v) for k, v in t.items())
+    return False
+
+
 def oracle_live(res, case, sk, ops, tmp, keypath):
     """re-run the history on a live configuration, inspecting it (and the validator log) after every returning validation"""
     import cincoconfig as cc
@@ -139,7 +151,21 @@ def oracle_live(res, case, sk, ops, tmp, keypath):
         del log[:]
         try:
             if op["op"] == "load_tree":
-                cfg.load_tree(copy.deepcopy(op["tree"]), validate=op["validate"])
+                doc_fmt = None
+                if op["validate"] and plain_tree(op["tree"]) and (not op["tree"] or n % 3 == 0):
+                    # the same tree as a document through Config.loads (empty documents included): a load that returns is a validated one
+                    for fmt in ("json", "yaml", "pickle", "bson", "xml"):
+                        if (n + len(op["tree"])) % 5 == ("json", "yaml", "pickle", "bson", "xml").index(fmt):
+                            doc_fmt = fmt
+                    try:
+                        doc = cc.ConfigFormat.get(doc_fmt).dumps(cfg, copy.deepcopy(op["tree"]))
+                    except Exception:  # noqa
+                        doc_fmt = None
+                if doc_fmt:
+                    res.hist["doc-load:" + doc_fmt + (":empty" if not op["tree"] else "")] += 1
+                    cfg.loads(doc, format=doc_fmt)
+                else:
+                    cfg.load_tree(copy.deepcopy(op["tree"]), validate=op["validate"])
                 if op["validate"]:
                     check_validated(res, case, sk, cfg, log, n)
             elif op["op"] == "validate":
